@@ -218,6 +218,12 @@ template <class T> static void product(pbt::Ctx& c) {
 		if (bits_q(x, g)) c.cls("cross(q1,q2) bit-identical to q1*q2");
 		glm::qua<T> y = A; y *= B;
 		if (!bits_q(y, g)) c.failk(key<T>("quat*=quat", "equals-binary-product"), "q1*=q2 gives %s, q1*q2 gives %s", gq(y).c_str(), gq(g).c_str());
+		{  // the right operand may be the object itself: q *= q is q * q
+			glm::qua<T> s1 = A, s2 = A * A; s1 *= s1;
+			if (!bits_q(s1, s2)) c.failk(key<T>("quat*=quat", "aliased-operand"), "q *= q gives %s, q * q gives %s (q=wxyz%s)", gq(s1).c_str(), gq(s2).c_str(), astr(a, 4).c_str());
+			glm::qua<T> a1 = A; a1 += a1; glm::qua<T> a2 = A; a2 -= a2;
+			if (!bits_q(a1, A + A) || !bits_q(a2, A - A)) c.failk(key<T>("quat+=quat", "aliased-operand"), "q += q / q -= q give %s / %s", gq(a1).c_str(), gq(a2).c_str());
+		}
 		// mixed element types: qua<T> op= qua<U> with U the other of float/double. The left operand keeps its own precision: the result is
 		// the product (sum, difference) of q1 and q2 converted to T, within the bound of the same-type operator
 		typedef typename std::conditional<std::is_same<T, float>::value, double, float>::type UT;
